@@ -11,6 +11,7 @@ import (
 	"reflect"
 	"runtime"
 	"strconv"
+	"strings"
 	"sync"
 	"time"
 
@@ -30,6 +31,11 @@ func main() {
 		runtime.GOMAXPROCS(procs)
 		for r := 0; r < reps; r++ {
 			for _, t := range tmpl.All() {
+				if strings.Contains(t.Name, "form=method") {
+					// go wk.run(...) reads its receiver late on the pinned tree (listed finding of the exploration pass): the
+					// resulting race with the parent's reassignment would be reported under varying writer functions
+					continue
+				}
 				var buf bytes.Buffer
 				steps := 0
 				i := interp.New(interp.Options{Stdout: &buf, Stderr: &bytes.Buffer{}})
